@@ -123,7 +123,12 @@ fn single_overlong_step(c: &Case, prob: &Prob, rtol: Tol, atol: Tol, bound: f64,
                 return false;
             }
             let h = (s.t[i] - s.t[i - 1]).abs();
-            let hp = (s.t[i - 1] - s.t[i - 2]).abs();
+            // "its predecessor": the shorter of the two steps before it (the controller sometimes needs two steps to
+            // reach the over-long one: 0.29 -> 0.67 -> 1.57 with the error jumping from 0.1 % to 440 % of the bound)
+            let mut hp = (s.t[i - 1] - s.t[i - 2]).abs();
+            if i >= 3 {
+                hp = hp.min((s.t[i - 2] - s.t[i - 3]).abs());
+            }
             if std::env::var_os("VF_C01_DIAG").is_some() {
                 eprintln!("C01-DIAG {} step {} of {}: h/hp = {:.3}, err_before/bound = {:.4}, err/bound = {:.2}", c.method.name(), i, s.t.len() - 1, h / hp, prev_err / bound, e / bound);
             }
@@ -157,7 +162,10 @@ fn overlong_step_dominates(c: &Case, prob: &Prob, rtol: Tol, atol: Tol, bound: f
     }
     (2..s.t.len()).any(|i| {
         let h = (s.t[i] - s.t[i - 1]).abs();
-        let hp = (s.t[i - 1] - s.t[i - 2]).abs();
+        let mut hp = (s.t[i - 1] - s.t[i - 2]).abs();
+        if i >= 3 {
+            hp = hp.min((s.t[i - 2] - s.t[i - 3]).abs());
+        }
         h >= 2.5 * hp && e[i] - e[i - 1] >= 0.5 * bound
     })
 }
@@ -225,7 +233,10 @@ fn diagnose_generic(run_plain: &dyn Fn() -> Option<Solution>, exact_at: &dyn Fn(
         }
         if i >= 2 {
             let h = (s.t[i] - s.t[i - 1]).abs();
-            let hp = (s.t[i - 1] - s.t[i - 2]).abs();
+            let mut hp = (s.t[i - 1] - s.t[i - 2]).abs();
+            if i >= 3 {
+                hp = hp.min((s.t[i - 2] - s.t[i - 3]).abs());
+            }
             if h >= 2.5 * hp && errs[i - 1] <= 0.1 * bound {
                 return "C01-overlong-step";
             }
